@@ -93,6 +93,16 @@ def collision_tail(prefix):
 def gen_cases(ctx, n):
     r = ctx.rng
     out = []
+    # (0) members with blocks of ZERO bytes – in the middle, at the end, nothing else – and lengths that are multiples of the block sizes
+    # an extraction loop could use (64, 512, 4096): the bytes WRITTEN are judged (the output file can be positioned like a regular
+    # file, so "seek instead of write" optimisations leave holes and short files that the harness sees)
+    for k in range(8):
+        blk = r.choice([64, 64, 512, 4096])
+        parts = [r.choice([bytes(blk), bytes(blk), S.rand_bytes(r, blk)]) for _ in range(r.choice([1, 2, 4, 5]))]
+        data = b"".join(parts) + r.choice([bytes(blk), bytes(blk), bytes(2 * blk), b"", bytes(7)])
+        meth_data = stored_member(data, level=r.choice([0, 1, 2]), name=b"z%d.bin" % k)
+        out.append(Case(A.rdr_op(r.choice(A.KINDS), "eod", ["n", "x1"], meth_data), judge=judge_x(len(data), crc16(data), False),
+                        tags={"intact", "zero-blocks"}))
     # (1) exhaustive bursts on tiny stored members, every truncation
     for k in range(max(2, n // 20)):
         ln = r.choice([1, 2, 3, 8, 17, 24])
